@@ -6,6 +6,7 @@ From M Require ArrayBytes.
 From M Require RtBlock.
 From M Require Framing3.
 From M Require ArrayScenario.
+From M Require BlockRefusal.
 From M Require ArrayBytes.
 From M Require BufModel.
 From M Require DecSpec.
@@ -115,4 +116,30 @@ Theorem C17_array_result_bytes :
 Proof. exact (@ArrayScenario.array_result_bytes). Qed.
 End T_array_result_bytes.
 Definition C17_array_result_bytes := @T_array_result_bytes.C17_array_result_bytes.
+
+Module T_refused_burst. Import BlockRefusal. Local Open Scope bool_scope. Local Open Scope Z_scope.
+Import ParserModel Framing2. Local Open Scope Z_scope.
+Local Open Scope Z_scope.
+Theorem C17_refused_burst :
+  forall c d,
+  arb_rem c < Z.of_nat (length d) ->
+  result_data c d = error_push c (-310) None /\
+  arb_rem (result_data c d) = arb_rem c /\ output_count (result_data c d) = output_count c /\
+  first_output (result_data c d) = first_output c /\ outp (trace (result_data c d)) = outp (trace c) /\ mem (result_data c d) = mem c.
+Proof. exact (@BlockRefusal.refused_burst). Qed.
+End T_refused_burst.
+Definition C17_refused_burst := @T_refused_burst.C17_refused_burst.
+
+Module T_rest_after_refusal. Import BlockRefusal. Local Open Scope bool_scope. Local Open Scope Z_scope.
+Import ParserModel Framing2. Local Open Scope Z_scope.
+Local Open Scope Z_scope.
+Theorem C17_rest_after_refusal :
+  forall c d1 bad d2,
+  0 <= arb_rem c -> arb_rem c = Z.of_nat (length d1) + Z.of_nat (length d2) -> d2 <> [] ->
+  Z.of_nat (length d2) < Z.of_nat (length bad) ->
+  let c1 := result_data c d1 in let c2 := result_data c1 bad in let c3 := result_data c2 d2 in
+  arb_rem c3 = 0 /\ output_count c3 = output_count c + 1.
+Proof. exact (@BlockRefusal.rest_after_refusal). Qed.
+End T_rest_after_refusal.
+Definition C17_rest_after_refusal := @T_rest_after_refusal.C17_rest_after_refusal.
 
